@@ -42,6 +42,15 @@ fn case_from_json(v: &Value) -> Option<Case> {
 }
 
 fn lookup_expect(lon: f64, lat: f64, id: u64, c: &Cell, what: &str, margin: f64) -> Result<(), String> {
+    // one time in four the same point is first looked up at another resolution (finer by 1..6 levels, or coarser):
+    // a point maps back to its cell whatever was asked just before (choice derived from the coordinates)
+    let sel = (lon.to_bits() >> 9) % 16;
+    if sel < 4 {
+        let other = if sel < 3 { (c.res + 1 + ((lat.to_bits() >> 9) % 6) as i32).min(29) } else { (c.res - 1 - ((lat.to_bits() >> 9) % 3) as i32).max(0) };
+        if other != c.res {
+            let _ = a5::lonlat_to_cell(api::lonlat(lon, lat), other);
+        }
+    }
     let got = a5::lonlat_to_cell(api::lonlat(lon, lat), c.res).map_err(|e| format!("lonlat_to_cell(({}, {}), {}) failed: {}", lon, lat, c.res, e))?;
     if got != id {
         return Err(format!(
